@@ -98,7 +98,7 @@ func (u *Unit) freshParam(st *State, v *types.Var) Term {
 	t := Term{S: nm, Sort: s, T: v.Type(), Signed: isSigned(v.Type())}
 	st.vars[v] = t
 	u.inputs = append(u.inputs, ModelVar{Name: v.Name(), Term: nm})
-	u.g.Pre.add("(declare-fun fresh$ (Int) Bool)")
+	u.g.Pre.addFresh()
 	for _, c := range u.g.refComponents(nm, v.Type(), u.bv, 0) {
 		u.defs = append(u.defs, app("not", app("fresh$", c)))
 	}
@@ -406,7 +406,7 @@ func (u *Unit) frameFormula(b *Block, st *State, entry *State, pos token.Pos) []
 		for _, r := range except[h] {
 			ex = append(ex, smtNot(smtEq("r", r)))
 		}
-		u.g.Pre.add("(declare-fun fresh$ (Int) Bool)")
+		u.g.Pre.addFresh()
 		out = append(out, fmt.Sprintf("(forall ((r Int)) (! (=> %s (= (select %s r) (select %s r))) :pattern ((select %s r))))", smtAnd(append([]string{"(not (fresh$ r))"}, ex...)...), cur.S, init.S, cur.S))
 	}
 	return out
@@ -498,7 +498,7 @@ func (u *Unit) frameObligations(b *Block, exits []*Exit, entry *State, pos token
 		}
 	}
 	if len(parts) > 0 {
-		u.g.Pre.add("(declare-fun fresh$ (Int) Bool)")
+		u.g.Pre.addFresh()
 		if hasFlag(b, "splitpaths") && len(parts) > 1 {
 			for k, p := range parts {
 				o := u.addMerged(fmt.Sprintf("%s/frame@%d", id, k), u.props, []string{p}, "objects outside the modifies clause are unchanged (pre-existing objects): "+strings.Join(names, " "))
